@@ -9,6 +9,8 @@ Open Scope N_scope.
 Inductive nevent :=
 | EVoteReq (q : votereq)
 | EAppendReq (q : appendreq)
+| EAppendReqCut (q : appendreq)   (* a request whose connection broke after the entries of q were read (it announced
+                                     more): what was consumed is handled like a complete request, the answer is readErr *)
 | ESnapReq (q : snapreq) (newprev : N)
 | ETimeoutNowReq (term src : N)
 | ETimeout
@@ -76,6 +78,11 @@ Definition model_event (opt : options) (s : nstate) (ev : nevent) : outcome (nob
       let (code, s1) := r in
       if code =? unexpectedErr then Err EDecode else
       finish opt old code (st_term s1) (st_lastidx s1) (after_rpc s1 true, no_out)
+  | EAppendReqCut q =>
+      r <~ on_append_request (o_shutdown_on_remove opt) s q ;;
+      let (code, s1) := r in
+      if code =? unexpectedErr then Err EDecode else
+      finish opt old readErr (st_term s1) (st_lastidx s1) (after_rpc s1 true, no_out)
   | ESnapReq q np =>
       r <~ on_install_snap_request s q np ;;
       let (code, s1) := r in
